@@ -1,0 +1,7 @@
+//go:build verif
+
+package sanitize
+
+// HTML: third-party sanitiser glue (C18, not decided here); no effect on program state.
+//@ func HTML
+//@   trusted
